@@ -111,11 +111,14 @@ def judge(sim, g, targets, res, phony_err=False, disc=None, model=None, files_be
             if p['error'] is None and p['ignored']:
                 return ("cycle through discovered inputs not diagnosed (statement already dirty)", D1)
         sig = None
+        ddfin_ = [ev['seq'] for ev in res['trace'] if ev['ev'] == 'finish' and sim is not None and (sim.edge_by_key(ev['edge']) or {}).get('is_dd_producer')]
+        cons_start = [ev['seq'] for ev in res['trace'] if ev['ev'] == 'start' and inject is not None and ev['edge'] == inject.get('consumed_by')]
         if inject is not None and inject.get('kind') == 'dyndep_out_cycle' and (
-                not inject.get('mid_build') or inject.get('consumed_by') not in starts):
+                not inject.get('mid_build') or not cons_start or (ddfin_ and cons_start[0] < max(ddfin_))):
             # known finding D19: the output is added by a dyndep file that is loaded during the initial scan, after the
             # statement consuming that file (then still a plain source) has been visited, or mid-build while that
-            # statement is up to date and therefore not part of the plan; in both cases it is not re-scanned
+            # statement is up to date (not part of the plan) or was already started before the file could be read;
+            # in all these cases it is not re-scanned
             sig = D19
         return ("cycle %s in the needed part of the graph is not diagnosed: phase=%s status=%s err=%r started=%s" % (cyc, res['phase'], res['status'], res['err'], starts), sig)
     if reported and not cyc:
@@ -344,7 +347,7 @@ def run_cycle_case(probe, g, ops, inj):
                 ok, d = model.discovered(sim.g, e, sim.files)
                 if ok and d:
                     disc_all[key(e)] = d
-            req = sim.request(targets, j=2, k=1, extra=dict(phony_cycle_err=bool(phony_err)))
+            req = sim.request(targets, j=1 + (c % 2), k=1, extra=dict(phony_cycle_err=bool(phony_err)))
             try:
                 r = probe.request(req, timeout_ms=20000)
             except ProbeDied as dd:
